@@ -337,7 +337,7 @@ func forEachSelect(text string, f func(arr, idx string)) {
 
 // termInstances instantiates universally quantified conjuncts at index terms
 // that occur in array reads of the quantifier-free part of the query.
-func (vc *VC) termInstances(needed map[string]bool, hyps []string, goal string) []string {
+func (vc *VC) termInstances(needed map[string]bool, hyps []string, goal string, sks []skolem) []string {
 	// 1. ground index terms by key sort
 	ground := map[string]map[string]bool{} // key sort -> terms
 	addGround := func(text string) {
@@ -395,46 +395,74 @@ func (vc *VC) termInstances(needed map[string]bool, hyps []string, goal string) 
 	var out []string
 	emit := func(guard, fa string) {
 		bs, body, ok := parseForall(fa)
-		if !ok || len(bs) != 1 {
+		if !ok || len(bs) == 0 || len(bs) > 3 {
 			return
 		}
-		b := bs[0]
-		cands := map[string]bool{}
-		forEachSelect(body, func(arr, idx string) {
-			if !strings.Contains(idx, b.name) {
-				return
-			}
-			for g := range ground[b.sort] {
-				switch {
-				case idx == b.name:
-					cands[g] = true
-				default:
-					p := sexpList(idx)
-					if len(p) == 3 && (p[0] == "bvadd" || p[0] == "+") {
-						sub := "bvsub"
-						if p[0] == "+" {
-							sub = "-"
-						}
-						if p[2] == b.name && !strings.Contains(p[1], b.name) {
-							cands["("+sub+" "+g+" "+p[1]+")"] = true
-						} else if p[1] == b.name && !strings.Contains(p[2], b.name) {
-							cands["("+sub+" "+g+" "+p[2]+")"] = true
+		// candidate terms per binder: ground index terms of the array reads the binder occurs in
+		candsPer := make([][]string, len(bs))
+		for bi, b := range bs {
+			cands := map[string]bool{}
+			forEachSelect(body, func(arr, idx string) {
+				if !strings.Contains(idx, b.name) {
+					return
+				}
+				for g := range ground[b.sort] {
+					switch {
+					case idx == b.name:
+						cands[g] = true
+					default:
+						p := sexpList(idx)
+						if len(p) == 3 && (p[0] == "bvadd" || p[0] == "+") {
+							sub := "bvsub"
+							if p[0] == "+" {
+								sub = "-"
+							}
+							if p[2] == b.name && !strings.Contains(p[1], b.name) {
+								cands["("+sub+" "+g+" "+p[1]+")"] = true
+							} else if p[1] == b.name && !strings.Contains(p[2], b.name) {
+								cands["("+sub+" "+g+" "+p[2]+")"] = true
+							}
 						}
 					}
 				}
+			})
+			if len(bs) > 1 {
+				for _, sk := range sks {
+					if sk.sort == b.sort {
+						cands[sk.name] = true
+					}
+				}
 			}
-		})
-		n := 0
-		for _, c := range sortedKeys(cands) {
-			inst := substVar(body, b.name, c)
+			ks := sortedKeys(cands)
+			lim := 24
+			if len(bs) == 2 {
+				lim = 8
+			} else if len(bs) == 3 {
+				lim = 4
+			}
+			if len(ks) > lim {
+				ks = ks[:lim]
+			}
+			candsPer[bi] = ks
+		}
+		insts := []string{body}
+		for bi, b := range bs {
+			var next []string
+			for _, in := range insts {
+				for _, c := range candsPer[bi] {
+					next = append(next, substVar(in, b.name, c))
+				}
+			}
+			insts = next
+			if len(insts) == 0 {
+				return
+			}
+		}
+		for _, inst := range insts {
 			if guard != "" {
 				inst = "(=> " + guard + " " + inst + ")"
 			}
 			out = append(out, inst)
-			n++
-			if n >= 24 {
-				break
-			}
 		}
 	}
 	for _, h := range hyps {
